@@ -167,6 +167,9 @@ func (vc *VC) identityOf(v Val) *Term {
 	if len(v.C) == 1 && v.C[0].Sort == SInt {
 		return v.C[0]
 	}
+	if len(v.C) == 1 && v.C[0].Sort == SBool {
+		return Ite(v.C[0], One, Zero)
+	}
 	allInt := true
 	for _, c := range v.C {
 		if c.Sort != SInt {
@@ -598,9 +601,47 @@ func (vc *VC) callFuncValue(x *ast.CallExpr, fv Val, args []Val, st *State) Val 
 	for _, a := range args {
 		targs = append(targs, vc.identityOf(a))
 	}
-	vc.emitEvent(st, "CallFuncValue", targs)
 	vc.havocAll(st, "call through function value")
-	return vc.opaque(rt, "dyncall")
+	// results: fresh values of the result types, recorded in the event like those of a contract call
+	// (slots 100+k identity, 200+k nil flag)
+	var res Val
+	var rvals []Val
+	if sig, ok := vc.typeOf(x.Fun).Underlying().(*types.Signature); ok && sig.Results().Len() > 0 {
+		var c []*Term
+		for i := 0; i < sig.Results().Len(); i++ {
+			v := vc.freshVal(sig.Results().At(i).Type(), "dynret")
+			rvals = append(rvals, v)
+			c = append(c, v.C...)
+		}
+		if len(rvals) == 1 {
+			res = rvals[0]
+		} else {
+			res = Val{T: sig.Results(), C: c}
+		}
+	} else {
+		res = vc.opaque(rt, "dyncall")
+	}
+	if len(rvals) > 0 {
+		for len(targs) < 100 {
+			targs = append(targs, Zero)
+		}
+		for _, v := range rvals {
+			targs = append(targs, vc.identityOfIn(st, v))
+		}
+		for len(targs) < 200 {
+			targs = append(targs, Zero)
+		}
+		for _, v := range rvals {
+			nilFlag := Zero
+			switch kindOf(v.T) {
+			case KIface, KPtr, KSlice, KMap, KFunc:
+				nilFlag = Ite(Eq(v.C[0], Zero), One, Zero)
+			}
+			targs = append(targs, nilFlag)
+		}
+	}
+	vc.emitEventSparse(st, "CallFuncValue", targs)
+	return res
 }
 
 func (vc *VC) lookupFuncObj(full string) *types.Func {
